@@ -510,9 +510,9 @@ Definition cs_pre (op : cs_op) (m : cs_m) : Prop :=
   match op with
   | OpAppend _ _ id _ | OpAppendRecovered _ _ id _ => cs_listed (m_db m) id = false
   | OpCopy _ items | OpMove _ _ items => forall p, In p items -> cs_has_msg (m_db m) (snd p) = true
-  | OpConnCreate msgs rows =>
-      (forall p, In p msgs -> cs_listed (m_db m) (fst p) = false) /\
-      (forall r, In r rows -> cs_has_msg (m_db m) (row_msg r) = true \/ In (row_msg r) (map fst msgs))
+  | OpConnCreate chunks rows =>
+      (forall p, In p (concat chunks) -> cs_listed (m_db m) (fst p) = false) /\
+      (forall r, In r rows -> cs_has_msg (m_db m) (row_msg r) = true \/ In (row_msg r) (map fst (concat chunks)))
   | OpConnUpdate _ new _ _ _ => cs_listed (m_db m) new = false
   | OpSessionEnd ids => forall id, In id ids -> cs_listed (m_db m) id = false
   | _ => True
@@ -635,25 +635,31 @@ Proof.
     + eapply Nat.le_trans; [apply (commits_block (m_db m)); [fa|exact Hb]|]. cbn. lia.
   - (* connector: MessagesCreated *)
     destruct Hpre as [Hnew Hrows].
-    set (ss := map (fun p : N * cs_bytes => SSet (fst p) (snd p)) msgs).
-    set (im := map (fun p : N * cs_bytes => SStmt (StInsertMsg (fst p))) msgs).
+    set (cm := flat_map (fun ch : list (N * cs_bytes) => map (fun p => SSet (fst p) (snd p)) ch ++ map (fun p => SStmt (StInsertMsg (fst p))) ch) chunks).
     set (ir := map (fun r => SStmt (StInsertRow (row_mb r) (row_uid r) (row_msg r))) rows).
-    replace ([SBegin; SRead] ++ ss ++ im ++ ir ++ [SCommit])
-      with ([] ++ [SBegin] ++ ([SRead] ++ ss ++ im ++ ir) ++ [SCommit] ++ [])
+    replace ([SBegin; SRead] ++ cm ++ ir ++ [SCommit])
+      with ([] ++ [SBegin] ++ ([SRead] ++ cm ++ ir) ++ [SCommit] ++ [])
       by (norm_app; reflexivity).
-    assert (Hss : Forall (body_step_ok (m_db m)) ss).
-    { unfold ss. apply Forall_forall. intros st Hst. apply in_map_iff in Hst. destruct Hst as [p [E Hin]]. subst st. cbn [body_step_ok]. apply Hnew. exact Hin. }
-    assert (Hb : Forall (body_step_ok (m_db m)) ([SRead] ++ ss ++ im ++ ir)).
-    { apply Forall_app. split; [fa|]. apply Forall_app. split; [exact Hss|]. unfold im, ir. fa. }
-    assert (Hf : cs_fk (apply_stmts (stmts_of ([SRead] ++ ss ++ im ++ ir)) (m_db m))).
-    { cbn [app stmts_of]. rewrite !stmts_of_app. unfold im, ir. rewrite !stmts_of_map.
-      assert (Hs0 : stmts_of ss = []).
-      { unfold ss. clear. induction msgs as [|a t IH]; [reflexivity|]. cbn [map stmts_of]. exact IH. }
-      rewrite Hs0. cbn [app].
+    assert (Hcm : Forall (body_step_ok (m_db m)) cm /\ stmts_of cm = map StInsertMsg (map fst (concat chunks))).
+    { unfold cm. clear -Hnew. induction chunks as [|ch t IH]; [split; [constructor|reflexivity]|].
+      cbn [flat_map concat]. destruct IH as [I1 I2].
+      { intros p Hp. apply Hnew. cbn [concat]. apply in_or_app. right. exact Hp. }
+      split.
+      - apply Forall_app. split; [|exact I1]. apply Forall_app. split; [|apply Forall_map_stmt].
+        apply Forall_forall. intros st Hst. apply in_map_iff in Hst. destruct Hst as [p [E Hin]]. subst st. cbn [body_step_ok].
+        apply Hnew. cbn [concat]. apply in_or_app. left. exact Hin.
+      - rewrite !stmts_of_app, I2. rewrite (stmts_of_map (fun p : N * cs_bytes => StInsertMsg (fst p))).
+        assert (Hs0 : stmts_of (map (fun p : N * cs_bytes => SSet (fst p) (snd p)) ch) = []).
+        { clear. induction ch as [|a l IHl]; [reflexivity|]. cbn [map stmts_of]. exact IHl. }
+        rewrite Hs0. cbn [app]. rewrite !map_app, !map_map. reflexivity. }
+    destruct Hcm as [Hcm1 Hcm2].
+    assert (Hb : Forall (body_step_ok (m_db m)) ([SRead] ++ cm ++ ir)).
+    { apply Forall_app. split; [fa|]. apply Forall_app. split; [exact Hcm1|]. unfold ir. fa. }
+    assert (Hf : cs_fk (apply_stmts (stmts_of ([SRead] ++ cm ++ ir)) (m_db m))).
+    { cbn [app stmts_of]. rewrite stmts_of_app, Hcm2. unfold ir. rewrite (stmts_of_map (fun r : N * N * N => StInsertRow (row_mb r) (row_uid r) (row_msg r))).
       apply fk_stmts; [exact Hfk|]. apply stmts_ok_app. split.
       - apply free_ok. apply free_map. intros a. exact I.
       - apply (insert_rows_ok (fun r : N * N * N => r)). intros r Hr.
-        replace (map (fun p : N * cs_bytes => StInsertMsg (fst p)) msgs) with (map StInsertMsg (map fst msgs)) by (rewrite map_map; reflexivity).
         destruct (Hrows r Hr) as [H|H].
         + apply has_msg_keep_all; [|exact H]. apply keeps_map. intros x. exact I.
         + apply insert_msgs_has. exact H. }
@@ -805,11 +811,11 @@ Section Final.
     apply in_map_iff in Hst. destruct Hst as [p [E Hin]]. subst st. exists (fst p). split; [reflexivity|].
     destruct Hx as [Hnew _].
     cbn [cs_steps] in Hk |- *.
-    set (X := [SBegin; SRead] ++ map (fun p : N * cs_bytes => SSet (fst p) (snd p)) msgs
-              ++ map (fun p : N * cs_bytes => SStmt (StInsertMsg (fst p))) msgs
+    set (X := [SBegin; SRead]
+              ++ flat_map (fun ch : list (N * cs_bytes) => map (fun p => SSet (fst p) (snd p)) ch ++ map (fun p => SStmt (StInsertMsg (fst p))) ch) chunks
               ++ map (fun r => SStmt (StInsertRow (row_mb r) (row_uid r) (row_msg r))) rows).
-    replace ([SBegin; SRead] ++ map (fun p : N * cs_bytes => SSet (fst p) (snd p)) msgs
-              ++ map (fun p : N * cs_bytes => SStmt (StInsertMsg (fst p))) msgs
+    replace ([SBegin; SRead]
+              ++ flat_map (fun ch : list (N * cs_bytes) => map (fun p => SSet (fst p) (snd p)) ch ++ map (fun p => SStmt (StInsertMsg (fst p))) ch) chunks
               ++ map (fun r => SStmt (StInsertRow (row_mb r) (row_uid r) (row_msg r))) rows ++ [SCommit])
       with (X ++ [SCommit]) in * by (unfold X; norm_app; reflexivity).
     rewrite app_length in Hk. cbn [length] in Hk.
@@ -818,8 +824,9 @@ Section Final.
     apply Forall_firstn. unfold X. apply Forall_forall. intros st Hst.
     cbn [app] in Hst. destruct Hst as [Hst|[Hst|Hst]]; [subst; discriminate|subst; discriminate|].
     apply in_app_or in Hst. destruct Hst as [Hst|Hst].
-    { apply in_map_iff in Hst. destruct Hst as [q [E _]]. subst. discriminate. }
-    apply in_app_or in Hst. destruct Hst as [Hst|Hst]; apply in_map_iff in Hst; destruct Hst as [q [E _]]; subst; discriminate.
+    { apply in_flat_map in Hst. destruct Hst as [ch [_ Hst]]. apply in_app_or in Hst.
+      destruct Hst as [Hst|Hst]; apply in_map_iff in Hst; destruct Hst as [q [E _]]; subst; discriminate. }
+    apply in_map_iff in Hst; destruct Hst as [q [E _]]; subst; discriminate.
   Qed.
 
   Theorem restart_identity : forall m, cs_fk (m_db m) -> view (cs_recover m) = view m.
